@@ -130,6 +130,16 @@ CHECKS["C15"] = {
     "design_ref": "§7 C15",
 }
 
+CHECKS["C13"] = {
+    "category": "model_checking",
+    "technique": "TLA+ NoiseStream.tla (frame segmentation, tamper outcomes) evaluated by TLC over all bounded scenarios; each scenario replayed on a real noise::Stream pair over a scripted, fragmenting transport (T2)",
+    "text": "Every write/flush sequence of the boundary sizes with every single-point tampering at every frame: the reader must obtain exactly the specified "
+            "prefix (all bytes when untampered), the wire must respect the 64 KiB frame bound, under seeded fragmentation and Pending patterns of both directions.",
+    "note": "AEAD soundness assumed; <= 3 writer operations per scenario; fragmentation sampled by seed; the specified end kind (eof/error) is informational (drift), "
+            "the property-level verdict is on the delivered bytes.",
+    "design_ref": "§7 C13",
+}
+
 NOT_YET = "check not built yet (construction in progress; see DESIGN.md §11 build order)"
 NA_REASONS = {}
 
